@@ -154,4 +154,23 @@ MonthTruncIsPeriodStart(t, dm) ==
 ToDFromHms(h, mi, s, sub) == <<h * 3600 + mi * 60 + s, sub>>
 ToDFields(x) == <<x[1] \div 3600, (x[1] % 3600) \div 60, x[1] % 60, x[2]>>
 HmsRoundTrip(h, mi, s, sub) == ToDFields(ToDFromHms(h, mi, s, sub)) = <<h, mi, s, sub>>
+\* Timelike setters on a time of day: replace ONE field and keep the others; a value outside the
+\* field's range has no result (<<>>).  (A nanosecond field of 10^9 .. 2*10^9-1 is the calendar library's
+\* leap-second notation: not specified here.)
+ToDWith(x, fld, val) ==
+    LET f == ToDFields(x) IN
+    CASE fld = "hour"   -> IF val < 24 THEN <<ToDFromHms(val, f[2], f[3], f[4])>> ELSE <<>>
+      [] fld = "minute" -> IF val < 60 THEN <<ToDFromHms(f[1], val, f[3], f[4])>> ELSE <<>>
+      [] fld = "second" -> IF val < 60 THEN <<ToDFromHms(f[1], f[2], val, f[4])>> ELSE <<>>
+      [] fld = "nano"   -> IF val < 1000000000 THEN <<ToDFromHms(f[1], f[2], f[3], val)>> ELSE <<>>
+FieldIx(fld) == CASE fld = "hour" -> 1 [] fld = "minute" -> 2 [] fld = "second" -> 3 [] fld = "nano" -> 4
+WithVals(fld) == CASE fld = "hour" -> {0, 7, 23, 24, 25} [] fld = "minute" -> {0, 30, 59, 60} [] fld = "second" -> {0, 59, 60, 61}
+                   [] fld = "nano" -> {0, 1, 999999999, 2000000000}
+ToDWithLaws(x) ==
+    \A fld \in {"hour", "minute", "second", "nano"} : \A val \in WithVals(fld) :
+        LET r == ToDWith(x, fld, val) IN
+        r # <<>> => /\ ToDFields(r[1])[FieldIx(fld)] = val                                     \* the field reads back
+                    /\ \A k \in 1..4 : k # FieldIx(fld) => ToDFields(r[1])[k] = ToDFields(x)[k]   \* the others stay
+                    /\ ToDWith(r[1], fld, val) = r                                            \* idempotent
+                    /\ ToDWith(r[1], fld, ToDFields(x)[FieldIx(fld)]) = <<x>>                 \* and reversible
 =============================================================================
